@@ -28,11 +28,11 @@ use std::collections::BTreeMap;
 use std::sync::Arc;
 use vcommon::util::{arg, read_ndjson, summary};
 
-fn model_bytes(f: &[Value]) -> Vec<u8> {
+fn model_bytes(f: &[Value], term: u8) -> Vec<u8> {
     f.iter()
         .enumerate()
         .map(|(i, b)| match b.as_str().unwrap() {
-            "n" => b'\n',
+            "n" => term,
             "r" => b'\r',
             _ => b'a' + (i % 26) as u8,
         })
@@ -54,8 +54,8 @@ fn scaled_bytes(f: &[Value], k: usize) -> Vec<u8> {
     v
 }
 
-async fn run_stream(store: Arc<dyn ObjectStore>, path: &Path, s: u64, e: u64, size: u64) -> Result<Vec<u8>, String> {
-    let st = AlignedBoundaryStream::new(store, path.clone(), s, e, size, b'\n')
+async fn run_stream_t(store: Arc<dyn ObjectStore>, path: &Path, s: u64, e: u64, size: u64, term: u8) -> Result<Vec<u8>, String> {
+    let st = AlignedBoundaryStream::new(store, path.clone(), s, e, size, term)
         .await
         .map_err(|e| format!("new: {e}"))?;
     let parts: Vec<Bytes> = st.try_collect().await.map_err(|e| format!("stream: {e}"))?;
@@ -64,7 +64,10 @@ async fn run_stream(store: Arc<dyn ObjectStore>, path: &Path, s: u64, e: u64, si
 
 /// Run one stream case in its own task so that a panic in the code under test is data.
 async fn run_stream_guarded(store: Arc<dyn ObjectStore>, path: Path, s: u64, e: u64, size: u64) -> Result<Vec<u8>, String> {
-    match tokio::spawn(async move { run_stream(store, &path, s, e, size).await }).await {
+    run_stream_guarded_t(store, path, s, e, size, b'\n').await
+}
+async fn run_stream_guarded_t(store: Arc<dyn ObjectStore>, path: Path, s: u64, e: u64, size: u64, term: u8) -> Result<Vec<u8>, String> {
+    match tokio::spawn(async move { run_stream_t(store, &path, s, e, size, term).await }).await {
         Ok(r) => r,
         Err(j) => Err(format!("panic: {j}")),
     }
@@ -95,7 +98,10 @@ impl Acc {
 // ------------------------------------------------------------------ (i) + (ii)
 async fn stream_case(acc: &mut Acc, case: &Value, chunks: &[usize], scale: usize, only: Option<(u64, u64, usize)>) {
     let f = case["f"].as_array().unwrap();
-    let data = if scale == 1 { model_bytes(f) } else { scaled_bytes(f, scale) };
+    // every third byte-exact file uses ';' as the record terminator (CSV `terminator` option)
+    let term: u8 = if scale == 1 && f.len() % 3 == 2 && !f.iter().any(|b| b == "r") { b';' } else { b'\n' };
+    if term == b';' { acc.bump("stream_files_with_custom_terminator", 1); }
+    let data = if scale == 1 { model_bytes(f, term) } else { scaled_bytes(f, scale) };
     let size = data.len() as u64;
     let k = scale as u64;
     let inner: Arc<dyn ObjectStore> = Arc::new(InMemory::new());
@@ -127,7 +133,7 @@ async fn stream_case(acc: &mut Acc, case: &Value, chunks: &[usize], scale: usize
             for (s, e, xlo, xhi) in variants {
                 if let Some((os, oe, ocs)) = only { if (os, oe, ocs) != (s, e, cs) { continue; } }
                 let expect = &data[xlo as usize..xhi as usize];
-                let got = run_stream_guarded(Arc::clone(&store), path.clone(), s, e, size).await;
+                let got = run_stream_guarded_t(Arc::clone(&store), path.clone(), s, e, size, term).await;
                 acc.evaluations += 1;
                 let ok = matches!(&got, Ok(g) if g.as_slice() == expect);
                 let nontrivial = s > 0 && e < size && xlo < xhi;
@@ -159,16 +165,17 @@ fn pad_for(kind: &str, id: i64) -> String {
         "s" => c.to_string(),
         "l" => std::iter::repeat(c).take(40).collect(),
         "h" => std::iter::repeat(c).take(17000).collect(),
+        "g" => std::iter::repeat(c).take(40000).collect(),
         "q" => format!("{c}\n{c}"),
         _ => String::new(),
     }
 }
 
 /// bytes of a file for a layout, and its expected rows (fid, id, pad)
-fn materialise(fmt: &str, fid: i64, file: &Value) -> (Vec<u8>, Vec<(i64, i64, String)>, Vec<u64>) {
+fn materialise(fmt: &str, fid: i64, file: &Value, semi: bool) -> (Vec<u8>, Vec<(i64, i64, String)>, Vec<u64>) {
     let lay = &file["lay"];
     let lines = lay["lines"].as_array().unwrap();
-    let term = if lay["crlf"].as_bool().unwrap() { "\r\n" } else { "\n" };
+    let term = if semi { ";" } else if lay["crlf"].as_bool().unwrap() { "\r\n" } else { "\n" };
     let mut out: Vec<String> = vec![];
     if fmt == "csv" && lay["header"].as_bool().unwrap() {
         out.push("fid,id,pad".to_string());
@@ -231,7 +238,7 @@ struct ScanOut {
 }
 
 async fn scan(fmt: &str, files: &[(Vec<u8>, Vec<(i64, i64, String)>, Vec<u64>)], tp: usize, chunk: usize, local: bool, nlv: bool,
-              header: bool, dir: &str, steal: bool) -> Result<ScanOut, String> {
+              header: bool, dir: &str, steal: bool, semi: bool, ordered: bool) -> Result<ScanOut, String> {
     let cfg = SessionConfig::new()
         .with_target_partitions(tp)
         .with_batch_size(4)
@@ -262,13 +269,16 @@ async fn scan(fmt: &str, files: &[(Vec<u8>, Vec<(i64, i64, String)>, Vec<u64>)],
     };
     let sch = schema();
     if fmt == "csv" {
-        let o = CsvReadOptions::new().schema(&sch).has_header(header).file_extension(ext).newlines_in_values(nlv);
+        let mut o = CsvReadOptions::new().schema(&sch).has_header(header).file_extension(ext).newlines_in_values(nlv);
+        if semi { o = o.terminator(Some(b';')); }
+        if ordered { o = o.file_sort_order(vec![vec![col("id").sort(true, false)]]); }
         ctx.register_csv("t", &table_path, o).await.map_err(|e| format!("register: {e}"))?;
     } else {
-        let o = JsonReadOptions::default().schema(&sch).file_extension(ext);
+        let mut o = JsonReadOptions::default().schema(&sch).file_extension(ext);
+        if ordered { o = o.file_sort_order(vec![vec![col("id").sort(true, false)]]); }
         ctx.register_json("t", &table_path, o).await.map_err(|e| format!("register: {e}"))?;
     }
-    let df = ctx.sql("SELECT fid, id, pad FROM t").await.map_err(|e| format!("sql: {e}"))?;
+    let df = ctx.sql(if ordered { "SELECT fid, id, pad FROM t ORDER BY id" } else { "SELECT fid, id, pad FROM t" }).await.map_err(|e| format!("sql: {e}"))?;
     let plan = df.create_physical_plan().await.map_err(|e| format!("plan: {e}"))?;
     if let Some(r) = &recorder { r.take(); }
     let groups = plan.downcast_ref::<datafusion::datasource::source::DataSourceExec>()
@@ -312,8 +322,13 @@ async fn e2e_case(acc: &mut Acc, case: &Value, idx: usize, tps: &[usize], fmts: 
     let local = case["store"].as_str() == Some("local");
     for fmt in fmts {
         let files: Vec<(Vec<u8>, Vec<(i64, i64, String)>, Vec<u64>)> = case["files"].as_array().unwrap().iter().enumerate()
-            .map(|(i, f)| materialise(fmt, i as i64, f)).collect();
+            .map(|(i, f)| materialise(fmt, i as i64, f, false)).collect();
         let layouts = case["files"].as_array().unwrap();
+        let variant = case["variant"].as_str().unwrap_or("plain");
+        let semi = variant == "semi" && *fmt == "csv";
+        let ordered = variant == "ordered";
+        if semi { acc.bump("e2e_csv_custom_terminator_cases", 1); }
+        if ordered { acc.bump("e2e_declared_order_cases", 1); }
         let nlv = *fmt == "csv" && layouts.iter().any(|f| f["lay"]["lines"].as_array().unwrap().iter().any(|k| k == "q"));
         // one table has one header setting: use the first file's; re-materialise the others to agree
         let header = *fmt == "csv" && layouts[0]["lay"]["header"].as_bool().unwrap();
@@ -321,7 +336,7 @@ async fn e2e_case(acc: &mut Acc, case: &Value, idx: usize, tps: &[usize], fmts: 
             layouts.iter().enumerate().map(|(i, f)| {
                 let mut f = f.clone();
                 f["lay"]["header"] = json!(header);
-                materialise(fmt, i as i64, &f)
+                materialise(fmt, i as i64, &f, semi)
             }).collect()
         } else { files };
         let mut expected: Vec<(i64, i64, String)> = files.iter().flat_map(|f| f.1.clone()).collect();
@@ -333,11 +348,11 @@ async fn e2e_case(acc: &mut Acc, case: &Value, idx: usize, tps: &[usize], fmts: 
             let fmt_s = fmt.to_string();
             let files_c = files.clone();
             let steal = (tp + idx) % 2 == 0;
-            let r = match tokio::spawn(async move { scan(&fmt_s, &files_c, tp, chunk, local, nlv, header, &dir, steal).await }).await {
+            let r = match tokio::spawn(async move { scan(&fmt_s, &files_c, tp, chunk, local, nlv, header, &dir, steal, semi, ordered).await }).await {
                 Ok(r) => r,
                 Err(j) => Err(format!("panic: {j}")),
             };
-            let replay = json!({"kind":"e2e","files":case["files"],"chunk":chunk,"store":case["store"],"fmt":fmt,"tp":tp,"idx":idx});
+            let replay = json!({"kind":"e2e","files":case["files"],"chunk":chunk,"store":case["store"],"fmt":fmt,"tp":tp,"idx":idx,"variant":variant});
             match r {
                 Err(e) if e.starts_with("register") || e.starts_with("sql") || e.starts_with("plan") => {
                     acc.tool_errors.push(format!("e2e {fmt} tp={tp}: {e}"));
@@ -392,8 +407,19 @@ async fn e2e_case(acc: &mut Acc, case: &Value, idx: usize, tps: &[usize], fmts: 
                         }
                     }
                     if !own_ok { order_ok = false; }
+                    if ordered {
+                        // ORDER BY id over files declared sorted by id: the output must be ascending in id
+                        let all: Vec<i64> = out.partitions.iter().flatten().map(|r| r.1).collect();
+                        if all.windows(2).any(|w| w[0] > w[1]) { order_ok = false; }
+                        if out.plan_root != "SortExec" { acc.bump("e2e_order_by_without_sortexec_root", 1); }
+                    }
                     let nranges = out.ranges.iter().filter(|r| matches!(r, Req::Get{head:false, range:Some(_), ..})).count();
                     acc.bump("e2e_ranged_gets", nranges as u64);
+                    if let Some(g) = &out.groups {
+                        let planned = g.iter().flatten().filter(|x| x.2 != u64::MAX).count();
+                        if nranges > planned { acc.bump("e2e_refill_gets", (nranges - planned) as u64); }
+                        if nranges >= planned + 2 { acc.bump("e2e_scans_with_two_or_more_refill_gets", 1); }
+                    }
                     if nparts > 1 { acc.bump("e2e_multi_partition_scans", 1); }
                     if nparts > 1 && !expected.is_empty() {
                         acc.nontrivial.insert(format!("{}|{}|{}|{}|{}", serde_json::to_string(&case["files"]).unwrap(), fmt, tp, chunk, local));
